@@ -987,6 +987,7 @@ class FileEmitter:
                 self.out.add(indent + "    ensures\n")
                 for lab, t in spec.ensures:
                     self.out.add(indent + "        " + t.strip().rstrip(",") + ",\n", dict(meta_base, part="ensures", label=lab))
+        abody = body or ""
         if body is None:
             self.out.add(indent + ";\n\n")
         else:
@@ -997,6 +998,7 @@ class FileEmitter:
                 if not ext:
                     b = join_lines(b)
                     b = inline_helpers(ctx, self.rel, ik, b, d["ret"])
+                    abody = b      # what the function does once new helpers are inlined: basis of the callee / loop / closure statistics
                     b = rule_fold(ctx, self.rel, b)
                     b = rule_continue(ctx, self.rel, b)
                     b = rule_body_text(ctx, self.rel, b)
@@ -1011,7 +1013,9 @@ class FileEmitter:
         ctx.fn_index.append({"file": self.rel, "impl": ik, "fn": it.name, "line": it.line, "external_body": bool(ext or self.stub), "stubbed": bool(stub_this and not ext), "forced_stub_reason": forced_reason,
                              "body_hash": bh, "hints_dropped": list(self.dropped_hints) if (body is not None and not ext and not stub_this) else [],
                              "body_text": re.sub(r"\s+", " ", body or "")[:6000],
-                             "params": pn, "closure_calls": len(re.findall(r"\.(?:map|map_err|and_then|or_else|ok_or_else|unwrap_or_else|filter|filter_map|for_each|fold|any|all|then|map_or|map_or_else|find|position|retain)\(\s*(?:move\s*)?\|", body or "")),
+                             "params": pn, "closure_calls": len(re.findall(r"\.(?:map|map_err|and_then|or_else|ok_or_else|unwrap_or_else|filter|filter_map|for_each|fold|any|all|then|map_or|map_or_else|find|position|retain)\(\s*(?:move\s*)?\|", abody)),
+                             "callees": sorted(set(re.findall(r"\b([A-Za-z_]\w*)\s*(?:::\s*<[^<>()]*>)?\s*\(", re.sub(r'"(?:[^"\\]|\\.)*"', '""', abody))) - {"if", "while", "for", "match", "return", "Some", "Ok", "Err", "None", "loop", "in", "let", "as"} | set(m + "!" for m in re.findall(r"\b([a-z_]\w*)!\s*[\(\[\{]", re.sub(r'"(?:[^"\\]|\\.)*"', '""', abody)))),
+                             "loops": len(re.findall(r"\b(?:for|while|loop)\b", re.sub(r'"(?:[^"\\]|\\.)*"', '""', abody))),
                              "sig_norm": R.norm(re.sub(r"\bfn\s+%s\b" % re.escape(it.name), "fn _", R.text(it.sig), count=1)),
                              "contract": bool(spec), "safety": spec.safety if spec else [],
                              "labels": [l for l, _ in (spec.requires + spec.ensures)] if spec else [],
